@@ -1029,3 +1029,48 @@ func mustJSON(v any) string {
 }
 
 var _ = url.Parse
+
+// FuzzServers: coverage-guided (thorough tier), bytes decoded into structured
+// arguments (handler, base request, header picks, body); same oracle as the
+// rapid-driven mutations.
+func FuzzServers(f *testing.F) {
+	servers := []string{"webdav", "caldav", "carddav", "principal"}
+	all := map[string][]base{}
+	for _, s := range servers {
+		all[s] = bases(s)
+		for i, b := range all[s] {
+			body := b.text
+			if b.doc != nil {
+				body = string(vx.Write(b.doc, vx.Fixed(0), false))
+			}
+			f.Add(uint8(len(f.Name())+i), uint8(i), uint8(0), uint8(0), []byte(body))
+		}
+	}
+	hostile := []string{"", "<", "<a>", "<?xml", `<!DOCTYPE x [<!ENTITY e "&e;">]><x>&e;</x>`, "BEGIN:VCALENDAR\r\n", "BEGIN:VCARD\r\nEND:VCARD\r\n", strings.Repeat("<a>", 2000), "\xff\xfe"}
+	for i, h := range hostile {
+		f.Add(uint8(i), uint8(i*7), uint8(i), uint8(i), []byte(h))
+	}
+	depths := []string{"", "0", "1", "infinity", "2", "x"}
+	cts := []string{"", "application/xml", "text/xml; charset=utf-8", "text/plain", "text/calendar", "text/vcard", "text/", "; x"}
+	f.Fuzz(func(t *testing.T, si, bi, di, ci uint8, body []byte) {
+		if len(body) > 1<<16 {
+			t.Skip()
+		}
+		s := servers[int(si)%len(servers)]
+		b := all[s][int(bi)%len(all[s])]
+		c := Case{Server: s, Method: b.method, Path: b.path, Hdr: append([][2]string(nil), b.hdr...), Body: vev.B(body), Mutated: true}
+		if d := depths[int(di)%len(depths)]; d != "" {
+			setHdr(&c, "Depth", d)
+		}
+		if ct := cts[int(ci)%len(cts)]; ct != "" {
+			setHdr(&c, "Content-Type", ct)
+		}
+		o, err := evaluate(c)
+		if err != nil {
+			t.Skip()
+		}
+		if !o.OK() && !rec.Known(o.Sig) {
+			t.Fatalf("%s: %s", o.Sig, o.Msg)
+		}
+	})
+}
